@@ -26,7 +26,8 @@ type nameState struct {
 	creating   bool
 	early      *component_definition.Meta // early reference handed out in the current attempt
 	earlyAdded bool
-	earlyRuns  int // successful runs of the early factory in the current attempt
+	earlyFails bool // the pending early-reference factory of this attempt always fails
+	earlyRuns  int  // successful runs of the early factory in the current attempt
 	published  *component_definition.Meta
 	failedOnce bool
 	attempts   int
@@ -83,6 +84,16 @@ func (m *machine) check() {
 			if got != nil {
 				m.fail("%q is neither published nor in creation (failed=%v) but GetSingleton(false) returns %p", n, s.failedOnce, got)
 			}
+		}
+		if s.creating && s.earlyAdded && s.early == nil && s.earlyFails {
+			// a pending factory that always fails can be probed safely: it stays pending and fails again, however often
+			// it was tried before
+			for try := 1; try <= 2; try++ {
+				if got3, err3 := m.reg.GetSingleton(n, true); err3 == nil {
+					m.fail("%q is in creation with a (failing) early-reference factory pending: early-allowed lookup no. %d must report its error, got %p and no error", n, try, got3)
+				}
+			}
+			m.flags["failing-early-factory-probed-twice"] = true
 		}
 		if !s.creating || !s.earlyAdded || s.early != nil {
 			// no pending factory according to the model: the early-allowed lookup must agree too
@@ -158,7 +169,7 @@ func (m *machine) create(n string, depth int) (*component_definition.Meta, error
 	}
 	res, err := m.reg.GetSingletonOrCreateByFactory(n, container.FuncSingletonFactory(func() (*component_definition.Meta, error) {
 		ran = true
-		s.creating, s.early, s.earlyAdded, s.earlyRuns = true, nil, false, 0
+		s.creating, s.early, s.earlyAdded, s.earlyFails, s.earlyRuns = true, nil, false, false, 0
 		s.attempts++
 		m.stack = append(m.stack, n)
 		defer func() { m.stack = m.stack[:len(m.stack)-1] }()
@@ -168,7 +179,7 @@ func (m *machine) create(n string, depth int) (*component_definition.Meta, error
 		own := newMeta(fmt.Sprintf("%s#%d", n, s.attempts))
 		expose := rapid.IntRange(0, 5).Draw(m.t, "expose") > 0
 		if expose {
-			earlyFails := rapid.IntRange(0, 9).Draw(m.t, "earlyfails") == 0
+			earlyFails := rapid.IntRange(0, 5).Draw(m.t, "earlyfails") == 0
 			wrapEarly := rapid.Bool().Draw(m.t, "wrapearly")
 			m.reg.AddSingletonFactory(n, container.FuncSingletonFactory(func() (*component_definition.Meta, error) {
 				if earlyFails {
@@ -181,7 +192,7 @@ func (m *machine) create(n string, depth int) (*component_definition.Meta, error
 				}
 				return own, nil
 			}))
-			s.earlyAdded = true
+			s.earlyAdded, s.earlyFails = true, earlyFails
 			m.log("addFactory(%s) fails=%v wrap=%v", n, earlyFails, wrapEarly)
 		}
 		steps := rapid.IntRange(0, 4).Draw(m.t, "steps")
@@ -209,6 +220,13 @@ func (m *machine) create(n string, depth int) (*component_definition.Meta, error
 					continue
 				}
 				if _, err := m.get(x, depth); err != nil {
+					// a failing early-reference factory of an enclosing creation: the caller may survive it (a lookup in a
+					// callback whose error is handled) and go on - later lookups of that name must see the same state again
+					if m.st[x].creating && rapid.Bool().Draw(m.t, "survive") {
+						m.log("early reference of %s failed: survived", x)
+						m.flags["survived-early-factory-failure"] = true
+						continue
+					}
 					m.log("dependency %s failed: propagate", x)
 					return nil, err
 				}
@@ -230,7 +248,7 @@ func (m *machine) create(n string, depth int) (*component_definition.Meta, error
 			case 3:
 				// exposing again inside the same creation must not change what lookups see:
 				// the early reference that was handed out stays THE early reference
-				if expose && rapid.Bool().Draw(m.t, "reexpose") {
+				if expose && !s.earlyFails && rapid.Bool().Draw(m.t, "reexpose") {
 					m.reg.AddSingletonFactory(n, container.FuncSingletonFactory(func() (*component_definition.Meta, error) {
 						if s.early != nil {
 							m.fail("a second early-reference factory of %q was run although an early reference had already been handed out", n)
@@ -460,8 +478,25 @@ func TestRealStartHistories(t *testing.T) {
 			}
 			in.Extra = append(in.Extra, wrap)
 		}
+		// sometimes a post-processor fetches a component programmatically while another one is being populated
+		// (after-instantiation callback): lookups issued from inside a creation, at a point the wiring never reaches
+		var looker *graph.ObsPP
+		if rapid.IntRange(0, 1).Draw(t, "instlookup") == 0 {
+			looker = &graph.ObsPP{Tag: "c04-looker", Log: in.Log, InstLookup: map[string]string{}, NoBudget: true}
+			for i := range s.Nodes {
+				if rapid.IntRange(0, 2).Draw(t, "looksup") == 0 {
+					from, _ := model.NameOf(in.Comps[i])
+					to, _ := model.NameOf(in.Comps[rapid.IntRange(0, len(s.Nodes)-1).Draw(t, "lookuptarget")])
+					looker.InstLookup[from] = to
+				}
+			}
+			in.Extra = append(in.Extra, looker)
+		}
 		in.Run()
 		desc := "real " + s.Shape()
+		if looker != nil {
+			desc += fmt.Sprintf(" inst-lookups=%v", looker.InstLooked)
+		}
 		if in.Out.Panic != nil {
 			t.Fatalf("C04: start-up panicked: %v\n%s", in.Out.Panic, desc)
 		}
